@@ -28,6 +28,34 @@ PLAN_SQL = [
     'select * from int1.t1 union select * from int2.t2', 'select count(*) from int1.t1 group by a order by a',
     'select * from nosuch.t1 join int9.t2', 'select 1',
 ]
+CATALOGS = {
+    'mindsdb': CATALOG,
+    'api': dict(integrations=[{'name': 'pg', 'type': 'data', 'class_type': 'api'}, 'int2'], default_namespace='PG'),
+    'mixed': dict(integrations=['pg', {'name': 'INT2', 'type': 'data'}, {'name': 'Proj', 'type': 'project'}],
+                  predictor_metadata=[{'name': 'Pred', 'integration_name': 'Proj'}], default_namespace='pg'),
+    'legacy': dict(integrations=['pg', 'int2'], predictor_namespace='mindsdb',
+                   predictor_metadata={'pred': {'timeseries': False}, 'proj.p2': {}}, default_namespace='Int2'),
+}
+TABLES = ['tab1', 'pg.tab2', 'PG.tab3', 'int2.t2', '`Int2`.t4', 'Pg.Tab5', 'tab6']
+TEMPLATES = [
+    'SELECT t1.a, t2.b FROM {0} AS t1 JOIN {1} AS t2 ON t1.id = t2.id WHERE t1.x > 1',
+    'SELECT * FROM {0} WHERE a IN (SELECT b FROM {1})',
+    'SELECT * FROM {0} UNION SELECT * FROM {1}',
+    'SELECT * FROM {0} t1 LEFT JOIN {1} t2 ON t1.id = t2.id JOIN {2} t3 ON t3.id = t1.id',
+    'SELECT a FROM {0} WHERE x = 1 ORDER BY a LIMIT 2',
+    'SELECT * FROM {0} t JOIN proj.pred p',
+]
+
+
+def plan_jobs(rng, n):
+    out = []
+    for _ in range(n):
+        t = rng.choice(TEMPLATES)
+        sql = t.format(*[rng.choice(TABLES) for _ in range(3)])
+        out.append(('plan', sql, rng.choice(sorted(CATALOGS))))
+    return out
+
+
 RENDER_DIALECTS = ['mysql', 'postgresql', 'sqlite', 'mssql']
 
 
@@ -51,7 +79,7 @@ def do_job(job):
         if kind == 'plan':
             from mindsdb_sql import parse_sql
             from mindsdb_sql.planner import plan_query
-            cat = copy.deepcopy(CATALOG)
+            cat = copy.deepcopy(CATALOGS.get(d, CATALOG))
             q = parse_sql(arg, 'mindsdb')
             plan = plan_query(q, **cat)
             return 'plan:' + ';'.join(re.sub(r'\bt_\d+\b', 't_N', re.sub(r'0x[0-9a-f]+', '0x', str(s))) for s in plan.steps)
@@ -80,7 +108,7 @@ def jobs_for(rng, n):
             jobs.append(('plan', rng.choice(PLAN_SQL), 'mindsdb'))
         else:
             jobs.append(('render', rng.choice([s for s in PLAN_SQL if 'nosuch' not in s]), rng.choice(RENDER_DIALECTS)))
-    return jobs
+    return jobs + plan_jobs(rng, max(40, n // 5))
 
 
 def class_state_digest():
@@ -259,7 +287,7 @@ def run(chk):
                 fail('threads:shared-catalog', 'plan differs when other threads plan with the same catalog object',
                      sql=sql, sequential=vbase[sql][:300], concurrent=r[:300])
     # --- hash seeds
-    seeds = [0, 1, 2] if not deep else [0, 1, 2, 3, 4, 5, 6, 7]
+    seeds = [0, 1, 2, 3, 4, 5, 6, 7] if not deep else list(range(16))
     per_seed = {}
     try:
         for hs in seeds:
